@@ -164,7 +164,7 @@ def conclude(prop, tier, seed, pl, results, extra, args, t0):
         rp = os.path.join(replay_dir, f"{prop}-{hashlib.sha1(nm.encode()).hexdigest()[:10]}.json")
         record = dict(property=prop, obligation=nm, function=(r or {}).get("function"), file=(r or {}).get("file"), kind=ob.get("kind"),
                       goal=ob.get("text"), lineno=ob.get("lineno"), status=ob.get("status"), solver_reason=ob.get("reason"),
-                      path=ob.get("path"), candidates=cands[:4], refute_error=ob.get("refute_error"), tier=tier, seed=seed,
+                      path=ob.get("path"), candidates=cands[:4], sidecars=pl.get("sidecars"), refute_error=ob.get("refute_error"), tier=tier, seed=seed,
                       verifier_output=ob.get("detail"))
         if cands and r is not None:
             try:
